@@ -7,6 +7,36 @@ ASSUME_COMMON = ('CPython 3.12 on Linux; C persistent/BTrees; clock, random, '
                  'globals; bounds as stated in the evidence file')
 
 CHECKS = {
+    'C01': dict(
+        technique='exhaustive crash-point enumeration: every op boundary and '
+                  'every byte cut of every data-file write, for every history '
+                  'up to a depth, on the real FileStorage over a recording '
+                  'file layer',
+        text='Every history over a 13-operation alphabet (depth 3 quick / 4 '
+             'thorough, two buffer sizes) is executed on the real FileStorage; '
+             'every prefix of the raw writes/truncates/renames it issues, '
+             'including every torn cut of each data-file write, is rebuilt as '
+             'a disk image, reopened read-write and compared with the model '
+             'prefix (query battery, independent format parser, one more '
+             'commit + reopen). fsync-before-ack and append-only are monitors '
+             'on the op log.',
+        design='3 (C01)',
+        note='crash model = prefix of issued ops with a torn last write (the '
+             'quantifier of the property); no reordering of unsynced writes'),
+    'C04': dict(
+        technique='explicit-state exploration of all operation sequences up '
+                  'to a depth on the real storages, full query battery vs a '
+                  'list-of-transactions reference model at every node',
+        text='All histories (depth 4 quick / 5 thorough on FileStorage, 5/6 on '
+             'MappingStorage) over commits, two-object and 9000-byte commits, '
+             'metadata up to 65535 bytes, empty transactions, deletes, undo, '
+             'resolved and unresolved conflicts, restore with explicit tid and '
+             'back-pointer hint, aborts, clock stall / step back, reopen. '
+             'After every step ~80-200 queries are compared with the model '
+             'and the file is parsed by an independent parser.',
+        design='3 (C04)',
+        note='marker records may answer POSKeyError or None; empty '
+             'transactions may be omitted from undoLog'),
     'C19': dict(
         technique='explicit-state exploration of the real fsIndex over a '
                   '12-key alphabet, every query compared with a sorted dict',
